@@ -9,7 +9,7 @@ Does not decide: value-level behaviour (runs, dictionary overflow, seek arithmet
 import re
 
 from mir import pl_fields, operand_places
-from tmpl import site, suffix
+from tmpl import site, suffix, fate
 
 COL = 'storage::secondary::column::'
 BLOCKTYPE = 'risinglight_proto::rowset::block_index::BlockType'
@@ -163,6 +163,64 @@ def run(ctx):
                + ''.join(f'; exempt {f}: {CURSOR_EXEMPT[(short_adt, f)]}' for f in sorted(nb - sk) if (short_adt, f) in CURSOR_EXEMPT),
                [ms['skip'].loc])
     ctx.floor(R5, n5, 8, 'block iterator implementations with next_batch and skip')
+
+    fake_iter_rule(ctx, prog)
+
+
+def fake_iter_rule(ctx, prog):
+    """C06-R6: typestate of ConcreteColumnIterator. After a skip that crossed a block boundary `is_fake_iter` is set and
+    `block_iterator` still belongs to the block that was left; it is reloaded at the start of the next read."""
+    R6 = 'C06-R6'
+    CCI = 'storage::secondary::column::concrete_column_iterator::ConcreteColumnIterator'
+    ctx.rule(R6, 'ConcreteColumnIterator: while is_fake_iter may be set, block_iterator is stale. Every call on self.block_iterator '
+                 'is preceded on all paths by the `is_fake_iter == false` arm or by a reload (assignment to block_iterator); a read '
+                 'that is not may only size a buffer (flow into with_capacity), never a result or the cursor')
+    bodies = [b for b in prog.bodies.values() if (b.rec.get('impl_self_adt') == CCI or b.name.startswith(CCI + '::<A, F>::'))
+              and not b.rec.get('derived')]
+    n_reads = 0
+    for b in bodies:
+        if b.rec.get('impl_trait', '').endswith('Drop') or '::new' in b.name:
+            continue
+        # locals that are references to self.block_iterator
+        refs = {}
+        for bb, st in b.stmts():
+            rv = st.get('rv', {}) if st['s'] == 'assign' else {}
+            if rv.get('rv') == 'ref' and any(f.endswith('ConcreteColumnIterator::block_iterator') for f in pl_fields(rv['pl'])):
+                refs[st['lhs']['l']] = bb
+        if not refs:
+            continue
+        reloads = {bb for bb, st in b.stmts() if st['s'] == 'assign' and st['lhs']['p']
+                   and any(f.endswith('ConcreteColumnIterator::block_iterator') for f in pl_fields(st['lhs']))}
+        not_fake = set()
+        for i, bl in enumerate(b.blocks):
+            t = bl['term']
+            if t['k'] != 'switch' or t['discr']['k'] == 'const':
+                continue
+            src = [st for st in bl['stmts'] if st['s'] == 'assign' and st['lhs']['l'] == t['discr']['pl']['l']]
+            if src and src[-1]['rv'].get('rv') == 'use' and src[-1]['rv']['op']['k'] != 'const' and \
+                    any(f.endswith('ConcreteColumnIterator::is_fake_iter') for f in pl_fields(src[-1]['rv']['op']['pl'])):
+                not_fake |= {tgt for v, tgt in t['targets'] if v == '0'}
+        for c in b.calls:
+            if not (c.args and c.args[0]['k'] != 'const' and c.args[0]['pl']['l'] in refs):
+                continue
+            n_reads += 1
+            ctx.functions_analysed.add(b.name)
+            guarded = c.bb not in b.reachable_from([0], avoid=not_fake | reloads) or c.bb in not_fake
+            if guarded:
+                ctx.ob(R6, f'{short_m(b.name)}·{short_m(c.fn)}·guarded', True, f'{b.name}: {c.fn} at block {c.bb} is behind the is_fake_iter test / a reload')
+                continue
+            fs = fate(b, c.dest['l'], lambda t, ai: 'hint' if re.search(r'with_capacity$', t.get('fn') or '') else 'propagated')
+            ctx.ob(R6, f'{short_m(b.name)}·{short_m(c.fn)}·only-a-capacity-hint', fs <= {'hint'} and bool(fs),
+                   f'{b.name}: {c.fn} at block {c.bb} can run while is_fake_iter is set; its result goes to {sorted(fs)}',
+                   [site(b, c.bb)],
+                   what=f'{short_m(b.name)} reads block_iterator.{short_m(c.fn)} while the iterator may be stale after a skip '
+                        '(is_fake_iter): the value describes the block that was left, not the current one')
+    ctx.floor(R6, n_reads, 4, 'calls on self.block_iterator in ConcreteColumnIterator')
+
+
+def short_m(n):
+    n = re.sub(r'<[^<>]*>', '', n or '?')
+    return n.rsplit('::', 1)[-1] if '{closure' not in n else '::'.join(n.rsplit('::', 2)[-2:])
 
 
 def self_writes(b):
